@@ -17,7 +17,11 @@ def body_bytes():
 
 def dense_body():
     """a configuration whose settings fill ~3000 bytes without zero runs (only the tail of the patch area is padding)"""
-    blob = bytes(((i * 73 + 19) % 251) + 1 for i in range(2400))
+    # aperiodic on purpose: a value that repeats with the period of the environmental key would outvote the zero padding in
+    # the n-gram statistics the key recovery relies on (the first version, period 251, made key length 251 unrecoverable)
+    import hashlib
+
+    blob = bytes((x % 255) + 1 for i in range(75) for x in hashlib.sha256(b"dense-body-%d" % i).digest())
     return b"".join(tlv.http_config(b"\x30\x81" + bytes(range(1, 160)), extra=[tlv.ptr(200, blob)]))
 
 
@@ -80,7 +84,7 @@ def one(args):
 def run(ctx):
     q = ctx.quick
     ctx.trusted += ["TLC", "GuardR (Mask/GuardMask/Checksum/GuardCfg)", "harness builder ref/guard.py (cross-checked byte for byte against TLC's Protect)"]
-    ctx.assumptions += ["configurations are zero-padded to the 6144-byte patch area (what the key recovery relies on)",
+    ctx.assumptions += ["configurations are zero-padded to the 6144-byte patch area and the padding dominates the aligned n-gram statistics (what the key recovery relies on)",
                         "corruptions are placed outside the last 2048 bytes of the configuration so that the guard configuration stays readable",
                         "environmental keys are compared modulo their primitive period"]
     mc = f"""CONSTANTS
